@@ -1,0 +1,12 @@
+//go:build verif
+
+package das
+
+import "time"
+
+// VerifSetRetryIntervals replaces the retry back-off table of this DASer instance. It must be
+// called before Start. It exists only under build tag `verif` (runtime monitors need retries
+// that are not a minute away); it changes nothing when the tag is off.
+func (d *DASer) VerifSetRetryIntervals(intervals []time.Duration) {
+	d.sampler.state.retryStrategy = newRetryStrategy(intervals)
+}
